@@ -456,7 +456,8 @@ impl IntoSqlBuilder for LiteralsAndKeywords {
                     message: "FStringList not implemented yet".to_string(),
                 }))
             }
-            LiteralsAndKeywords::StringLit(val) => format!("'{}'", val),
+            // a quote inside the literal is doubled, so the content cannot end the SQL literal
+            LiteralsAndKeywords::StringLit(val) => format!("'{}'", val.replace('\'', "''")),
             LiteralsAndKeywords::ByteStringLit(_) => {
                 return Ok(Box::new(UnsupportedBuilder {
                     message: "ByteStringLit not implemented yet".to_string(),
